@@ -532,13 +532,17 @@ class Classification:
         for morph in self.morphs:
             result = morph.get_algebra_properties()
             type_algebra = result[0]
+            nc = result[1]
             n = result[2]
+            copies = nc if nc == 1 else 2**(nc-1)
+            if type_algebra == TypeAlgebra.U:
+                dim+= copies
             if type_algebra == TypeAlgebra.SU:
-                dim+= dim_su(n)
+                dim+= copies*dim_su(n)
             if type_algebra == TypeAlgebra.SP:
-                dim+= dim_sp(n)
+                dim+= copies*dim_sp(n)
             if type_algebra == TypeAlgebra.SO:
-                dim+= dim_so(n)
+                dim+= copies*dim_so(n)
         return dim
 
     def _inc_morph_generator(self, ms:int, morphs:list[Morph], morph_generators:list[PauliString],
